@@ -21,6 +21,7 @@ import (
 	"sort"
 	"time"
 
+	"github.com/tikv/pd/server/config"
 	"verif/harness/lib/ev"
 	"verif/harness/lib/srv"
 	"verif/harness/lib/world"
@@ -347,7 +348,8 @@ func (h *harness) canonicalD12() {
 // whatever the previous world left behind.
 func (h *harness) fullServer(rng *rand.Rand, seqWorlds, concWorlds int) {
 	r := h.r
-	cfgs := srv.NewConfigs(1, nil)
+	// a long leader lease: under the load of 8 race-instrumented shards a 1 s lease can lapse
+	cfgs := srv.NewConfigs(1, func(i int, cfg *config.Config) { cfg.LeaderLease = 120 })
 	m, err := srv.Start(cfgs[0])
 	if err != nil {
 		r.Inconclusive("full server: start: %v", err)
@@ -386,11 +388,23 @@ func (h *harness) fullServer(rng *rand.Rand, seqWorlds, concWorlds int) {
 			return
 		}
 		if conc {
+			if err := t.Healthy(); err != nil {
+				r.Inconclusive("full server: %v", err)
+				return
+			}
 			res := runConcurrent(r, t, w, plan, streams, 3, rand.New(rand.NewSource(p.PlanSeed^0x77)), "full-server", map[string]interface{}{"world": p.describe()})
+			if res == nil {
+				return
+			}
 			h.concFold(res, w, plan, "full-server", k-seqWorlds, p)
 		} else {
 			snaps := snapsOf(plan)
-			fs, st := judgeSeq(t, snaps, true)
+			fs, st, herr := judgeSeqH(t, snaps, true, t.Healthy)
+			if herr != nil {
+				h.report(fs, snaps, p.Cfg.Stores, map[string]interface{}{"world": p.describe()}, "sequential:full-server")
+				r.Inconclusive("full server: %v", herr)
+				return
+			}
 			r.Eval(1)
 			r.Count("worlds_sequential_full_server", 1)
 			countKinds(r, plan)
@@ -404,8 +418,8 @@ func (h *harness) fullServer(rng *rand.Rand, seqWorlds, concWorlds int) {
 		verBase = w.MaxVersion() + 400 // beyond anything a stale snapshot of this world can carry
 		o := t.Observe()
 		t.Forget(func(id uint64) bool { _, ok := o.ByID[id]; return ok })
-		if errs := t.Errs(); len(errs) > 0 {
-			r.Inconclusive("full server: API errors: %v", errs[0])
+		if err := t.Healthy(); err != nil {
+			r.Inconclusive("full server: %v", err)
 			return
 		}
 	}
@@ -429,19 +443,24 @@ func main() {
 
 	alphaN := r.Pick(16, 96)
 	maxRegions := r.Pick(12, 64)
-	seqWorlds := r.Pick(300, 420)
+	seqWorlds := r.Pick(300, 300)
 	if os.Getenv("C06_DEBUG_FEW") != "" {
 		seqWorlds = 30
 	}
 	seqEvents := r.Pick(200, 400)
 	streams := r.Pick(4, 16)
-	concExact := r.Pick(70, 160)
-	concFree := r.Pick(70, 160)
+	concExact := r.Pick(70, 100)
+	concFree := r.Pick(70, 100)
 	concEvents := r.Pick(250, 500)
 
 	phases := map[string]float64{}
 	t0 := time.Now()
 	lap := func(name string) { phases[name] = time.Since(t0).Seconds(); t0 = time.Now() }
+	if r.Thorough() {
+		// first, while every shard is still in a single-threaded phase (the server needs timely CPU)
+		h.fullServer(rand.New(rand.NewSource(r.ShardSeed()^0x0f5e)), 14, 6)
+		lap("full_server")
+	}
 	for i := 0; i < seqWorlds; i++ {
 		h.seqWorld(genParams(rng, alphaN, maxRegions, seqEvents, 1+rng.Intn(streams), false), i)
 	}
@@ -462,10 +481,6 @@ func main() {
 		h.concWorld(genParams(rng, alphaN, mr, concEvents, streams, false), 3, "full-events", i)
 	}
 	lap("concurrent_full_events")
-	if r.Thorough() {
-		h.fullServer(rng, 14, 6)
-		lap("full_server")
-	}
 	h.canonicalD12()
 	r.Set("phase_seconds", phases)
 	r.Set("minimize_seconds", h.minSeconds)
